@@ -195,3 +195,59 @@ Fixpoint pure (v : value) : bool :=
        end
   | _ => true
   end.
+
+(** * Merge with a position-dependent policy (C16): [polf pos] is the policy in force for
+    merging the two containers found at position [pos]. *)
+Fixpoint spec_merge_at (polf : list field -> N) (pos : list field) (a b : otree) {struct b} : otree :=
+  let pol := polf pos in
+  match b with
+  | OMap mb =>
+    match parts a with
+    | None => b
+    | Some (da, la) =>
+      let d' :=
+          match mb with
+          | [] => da
+          | _ =>
+            if pol_replace pol then mb
+            else (fix go (acc : list (string * otree)) (l : list (string * otree)) {struct l} :=
+                    match l with
+                    | [] => acc
+                    | (k, vb) :: r =>
+                      go (dict_set k (match dict_get k acc with
+                                      | Some va => spec_merge_at polf (pos ++ [FName k]) va vb
+                                      | None => vb end) acc) r
+                    end) da mb
+          end in
+      recombine d' la
+    end
+  | OList lb =>
+    match parts a with
+    | None => b
+    | Some (da, la) =>
+      let l' :=
+          match lb with
+          | [] => la
+          | _ =>
+            if pol_arr_replace pol then lb
+            else if pol_prepend pol then lb ++ la
+            else if pol_append pol then la ++ lb
+            else (fix zip (i : Z) (olds : list otree) (news : list otree) {struct news} : list otree :=
+                    match news with
+                    | [] => olds
+                    | vb :: nr =>
+                      match olds with
+                      | [] => news
+                      | va :: or => spec_merge_at polf (pos ++ [FIdx i]) va vb :: zip (i + 1) or nr
+                      end
+                    end) 0 la lb
+          end in
+      recombine da l'
+    end
+  | ONil =>
+    match parts a with
+    | Some (da, la) => recombine da la
+    | None => ONil
+    end
+  | _ => b
+  end.
